@@ -9,6 +9,7 @@ Partial by design: the floating-point estimate windows of `compute_lattice_index
 Wiedemann / Berlekamp–Massey code of intsparse.rs have no theorem (K/O only).
 -/
 import Ymq.Lemmas.IntMatCrt
+import Ymq.Lemmas.ArithGcd
 import Ymq.Lemmas.IntMatPerm
 import Ymq.Lemmas.IntMatEchPDet
 import Ymq.Lemmas.SnfCols
@@ -29,7 +30,7 @@ moduli below 2^62) then `crt` returns exactly `d`, with its sign.
 `hinv` is the named hypothesis `inv_mod64_spec` (property C08). -/
 theorem crt_symmetric (inv : Inv) (hinv : InvSpec inv) (modp primes : List Nat) (d : Int)
     (hlen : modp.length = primes.length)
-    (hp : ∀ p ∈ primes, 1 < p) (hcop : primes.Pairwise Nat.Coprime)
+    (hp : ∀ p ∈ primes, 1 < p) (hU : ∀ p ∈ primes, p < U64) (hcop : primes.Pairwise Nat.Coprime)
     (hm : ∀ m ∈ modp, (m : Int) < W64)
     (hres : ∀ i (h1 : i < modp.length) (h2 : i < primes.length),
       ((primes[i] : Nat) : Int) ∣ ((modp[i] : Nat) : Int) - d)
@@ -68,7 +69,7 @@ theorem crt_symmetric (inv : Inv) (hinv : InvSpec inv) (modp primes : List Nat) 
       g i < ((primes.prod : Nat) : Int) ∧ ((primes[i] : Nat) : Int) ∣ g i - 1 ∧
       ∀ k (hk : k < primes.length), k ≠ i → ((primes[k] : Nat) : Int) ∣ g i := by
     intro i hi
-    obtain ⟨v, h1, h2, h3, h4, h5⟩ := crtBasis_spec inv hinv primes hp hcop hfitP i hi
+    obtain ⟨v, h1, h2, h3, h4, h5⟩ := crtBasis_spec inv hinv primes hp hU hcop hfitP i hi
     have : g i = v := by simp [g, h1]
     rw [this]; exact ⟨h1, h2, h3, h4, h5⟩
   rw [mapOpt_eq_some (crtBasis inv primes) g (List.range primes.length)
@@ -123,7 +124,7 @@ are not modelled: the code assumes moduli below 2^63). Same statement as `crt_sy
 two moduli; with a single modulus the code returns the residue itself, without lift. -/
 theorem crt_sparse_symmetric (inv : Inv) (hinv : InvSpec inv) (modp primes : List Nat) (d : Int)
     (hlen : modp.length = primes.length) (hn : 2 ≤ modp.length)
-    (hp : ∀ p ∈ primes, 1 < p) (hcop : primes.Pairwise Nat.Coprime)
+    (hp : ∀ p ∈ primes, 1 < p) (hU : ∀ p ∈ primes, p < U64) (hcop : primes.Pairwise Nat.Coprime)
     (hres : ∀ i (h1 : i < modp.length) (h2 : i < primes.length),
       ((primes[i] : Nat) : Int) ∣ ((modp[i] : Nat) : Int) - d)
     (hd1 : -((primes.prod : Nat) : Int) < 2 * d) (hd2 : 2 * d ≤ ((primes.prod : Nat) : Int)) :
@@ -139,7 +140,7 @@ theorem crt_sparse_symmetric (inv : Inv) (hinv : InvSpec inv) (modp primes : Lis
       ((primes[i] : Nat) : Int) ∣ g i - ((modp[i]'(by omega) : Nat) : Int) ∧
       ∀ k (hk : k < primes.length), k ≠ i → ((primes[k] : Nat) : Int) ∣ g i := by
     intro i hi
-    obtain ⟨v, h1, h2, h3, h4⟩ := crtSparseTerm_spec inv hinv modp primes hlen hp hcop i hi
+    obtain ⟨v, h1, h2, h3, h4⟩ := crtSparseTerm_spec inv hinv modp primes hlen hp hU hcop i hi
     have : g i = v := by simp [g, h1]
     rw [this]; exact ⟨h1, h2, h3, h4⟩
   rw [mapOpt_eq_some (crtSparseTerm inv modp primes) g (List.range primes.length)
@@ -181,7 +182,7 @@ example : ∃ inv : Inv, InvSpec inv ∧ crtDense inv [3, 4] [5, 7] = some (-17)
   -- a total inverse: search below p
   let inv : Inv := fun a p => some ((List.range p).find? (fun i => a * i % p = 1))
   have hinv : InvSpec inv := by
-    intro a p hp hc
+    intro a p _ _ hp hc
     obtain ⟨i, hi, hi2⟩ := Nat.exists_mul_mod_eq_one_of_coprime hc hp
     have hsome : ((List.range p).find? (fun i => a * i % p = 1)).isSome := by
       rw [List.find?_isSome]
@@ -194,6 +195,7 @@ example : ∃ inv : Inv, InvSpec inv ∧ crtDense inv [3, 4] [5, 7] = some (-17)
   refine ⟨inv, hinv, ?_⟩
   apply crt_symmetric inv hinv [3, 4] [5, 7] (-17) rfl
   · intro p hp; simp at hp; omega
+  · intro p hp; simp at hp; unfold U64; omega
   · simp [Nat.Coprime]
   · intro m hm; simp at hm; unfold W64; omega
   · intro i h1 h2
@@ -253,6 +255,26 @@ example : ∃ inv : Inv,
     detModPlain inv 101 { p := 101, indices := [], basis := [], factors := [] } [[1, 2], [2, 4]] = some 0 :=
   ⟨fun a p => some ((List.range p).find? (fun i => a * i % p = 1)), by decide, by decide⟩
 
+/-- the model of `arith::inv_mod64` (Ymq/Model/Arith.lean, the function the driver runs) meets
+`InvSpec`: theorem `invMod64_spec` of property C08 -/
+theorem invMod64_invSpec : InvSpec Ymq.Arith.invMod64 := by
+  intro a p ha hp hp1 hc
+  have hU : (2 : Nat) ^ 64 = U64 := by unfold U64; norm_num
+  obtain ⟨r, h1, h2, h3⟩ := (Ymq.Arith.invMod64_spec a p (by rw [hU]; exact ha) (by rw [hU]; exact hp) (by omega)).1 hc
+  exact ⟨r, h1, h2, by rw [h3]; exact Nat.mod_eq_of_lt hp1⟩
+
+/-- `crt_symmetric` for the model of `inv_mod64` itself: no hypothesis left -/
+theorem crt_symmetric_closed (modp primes : List Nat) (d : Int)
+    (hlen : modp.length = primes.length)
+    (hp : ∀ p ∈ primes, 1 < p) (hU : ∀ p ∈ primes, p < U64) (hcop : primes.Pairwise Nat.Coprime)
+    (hm : ∀ m ∈ modp, (m : Int) < W64)
+    (hres : ∀ i (h1 : i < modp.length) (h2 : i < primes.length),
+      ((primes[i] : Nat) : Int) ∣ ((modp[i] : Nat) : Int) - d)
+    (hfit : (modp.length : Int) * (W64 * ((primes.prod : Nat) : Int)) < I4096LIM)
+    (hd1 : -((primes.prod : Nat) : Int) < 2 * d) (hd2 : 2 * d ≤ ((primes.prod : Nat) : Int)) :
+    crtDense Ymq.Arith.invMod64 modp primes = some d :=
+  crt_symmetric _ invMod64_invSpec modp primes d hlen hp hU hcop hm hres hfit hd1 hd2
+
 /-- the integer matrix of a list of integer rows -/
 def matZ (n : Nat) (mat : List (List Int)) : Matrix (Fin n) (Fin n) Int :=
   fun t c => (mat.getD t []).getD c 0
@@ -267,7 +289,7 @@ determinant of the integer matrix (Mathlib `Matrix.det` over `ℤ`), sign includ
 theorem det_exact_partial (inv : Inv) (hinv : InvSpec inv) (n : Nat) (hn : 0 < n) (mat : List (List Int))
     (hlen : mat.length = n) (hrows : ∀ r ∈ mat, r.length = n)
     (modp primes : List Nat) (hl : modp.length = primes.length)
-    (hp : ∀ p ∈ primes, 1 < p) (hcop : primes.Pairwise Nat.Coprime)
+    (hp : ∀ p ∈ primes, 1 < p) (hU : ∀ p ∈ primes, p < U64) (hcop : primes.Pairwise Nat.Coprime)
     (hm : ∀ m ∈ modp, (m : Int) < W64)
     (hres : ∀ i (h1 : i < modp.length) (h2 : i < primes.length),
       detModPlain inv primes[i] { p := primes[i], indices := [], basis := [], factors := [] } mat = some modp[i])
@@ -275,7 +297,7 @@ theorem det_exact_partial (inv : Inv) (hinv : InvSpec inv) (n : Nat) (hn : 0 < n
     (hd1 : -((primes.prod : Nat) : Int) < 2 * (matZ n mat).det)
     (hd2 : 2 * (matZ n mat).det ≤ ((primes.prod : Nat) : Int)) :
     crtDense inv modp primes = some (matZ n mat).det := by
-  apply crt_symmetric inv hinv modp primes _ hl hp hcop hm _ hfit hd1 hd2
+  apply crt_symmetric inv hinv modp primes _ hl hp hU hcop hm _ hfit hd1 hd2
   intro i h1 h2
   have h := echelon_det_partial inv primes[i] n hn mat hlen hrows modp[i] (hres i h1 h2)
   -- the determinant over Z/p is the image of the integer determinant
